@@ -388,7 +388,27 @@ impl<'a> Runner<'a> {
                 let d = desc_for(tx, &bb.descs);
                 let auto = d.is_none();
                 let sigok = d.map(sig_ok_by_construction).unwrap_or(true);
-                self.world.describe_tx(tx, auto, d, sigok)
+                let mut v = self.world.describe_tx(tx, auto, d, sigok);
+                // a rebroadcast is charged by the size of the transaction (of the leaving block) whose output it carries on
+                let mut src_size = 0u64;
+                if tx.transaction_type == TransactionType::ATR {
+                    if let Some(inp) = tx.from.iter().find(|s| s.slip_type != SlipType::Bound) {
+                        for cand in self.blocks.values() {
+                            if cand.block.id != inp.block_id {
+                                continue;
+                            }
+                            if let Some(src) = cand.block.transactions.get(inp.tx_ordinal as usize) {
+                                let hit = src.to.iter().any(|o| o.public_key == inp.public_key && o.slip_index == inp.slip_index && o.amount == inp.amount);
+                                if hit {
+                                    src_size = src.get_serialized_size() as u64;
+                                    break;
+                                }
+                            }
+                        }
+                    }
+                }
+                v["src_size"] = json!(src_size);
+                v
             })
             .collect();
         let pb = self.blocks.get(&bb.parent).map(|p| &p.block);
@@ -420,7 +440,7 @@ impl<'a> Runner<'a> {
                     "payout_treasury": amt_json(b.total_payout_treasury), "payout_graveyard": amt_json(b.total_payout_graveyard),
                     "payout_atr": amt_json(b.total_payout_atr),
                     "bf": amt_json(b.burnfee), "work": amt_json(b.total_work), "needed": amt_json(needed),
-                    "dt": dt, "pbf": amt_json(pbf), "difficulty": b.difficulty},
+                    "dt": dt, "pbf": amt_json(pbf), "difficulty": b.difficulty, "afpb": b.avg_fee_per_byte},
             "st": self.state(&self.node),
             "x": extra,
         })
